@@ -489,6 +489,10 @@ def run(F, rep):
         from rules import c12
         if F.funcs.get(c12.TP + "bytes_to_tuples") and F.funcs.get(c12.TP + "tuples_to_bytes"):
             c12.tp4_rule(F, rep, "C02-TUPLE", want=("fmt",))
+    # the collection varint as it is computed (not only its constants): AGC v3 prefix code at every class end and byte-carry point
+    if getattr(F, "cfg", "dev") == "dev":
+        from rules import c03 as c03v
+        c03v.vint_rule(F, rep, "C02-VINT", want=("fmt", "rt"))
     # collection varint thresholds
     cv = {k.rsplit("::", 1)[-1]: c.get("int") for k, c in F.consts.items() if k.startswith("ragc_common::collection::CollectionVarInt::")}
     rep.stat("collection_varint_consts", cv)
